@@ -191,7 +191,7 @@ theorem T3_owned_only_by_piece_done (s s' : MState) (ev : Ev) (r : Reply) (hstep
       split at hstep
       · simp at hstep
       · simp only [Out.ok.injEq] at hstep; rw [← hstep.1] at hnow; exact absurd hnow hnot
-  | «have» a k =>
+  | «have» a k chosen =>
     simp only [mstep] at hstep
     cases hp : findPeer s a with
     | none => simp [hp] at hstep
@@ -200,12 +200,16 @@ theorem T3_owned_only_by_piece_done (s s' : MState) (ev : Ev) (r : Reply) (hstep
       exfalso
       split at hstep
       · simp at hstep
-      · split at hstep
-        · split at hstep
-          · simp only [Out.ok.injEq] at hstep; rw [← hstep.1] at hnow
-            exact keep _ k (fun _ => Status.reserved 1) (fun _ _ => by simp) hnot hnow
+      · cases chosen with
+        | none => simp only [Out.ok.injEq] at hstep; rw [← hstep.1] at hnow; exact hnot hnow
+        | some c =>
+          simp only at hstep
+          split at hstep
+          · split at hstep
+            · simp only [Out.ok.injEq] at hstep; rw [← hstep.1] at hnow
+              exact keep _ c incr incr_not hnot hnow
+            · simp only [Out.ok.injEq] at hstep; rw [← hstep.1] at hnow; exact hnot hnow
           · simp only [Out.ok.injEq] at hstep; rw [← hstep.1] at hnow; exact hnot hnow
-        · simp only [Out.ok.injEq] at hstep; rw [← hstep.1] at hnow; exact hnot hnow
   | pieceCancel a chosen =>
     simp only [mstep] at hstep
     cases hp : findPeer s a with
@@ -854,7 +858,7 @@ theorem handled_have (T : Torrent) (a : Nat) (m m1 : MState) (cs : List Cmd) (re
       | recvInterested => simp only [Handled] at hH; obtain ⟨_, _, _, he, _⟩ := viaT3 _ _ hH; cases he
       | recvUnchoke => simp only [Handled] at hH; obtain ⟨_, _, hm, _⟩ := hH; obtain ⟨_, _, _, he, _⟩ := viaT3 _ _ hm; cases he
       | recvNotInterested => simp only [Handled] at hH; obtain ⟨_, _, hm, _⟩ := hH; obtain ⟨_, _, _, he, _⟩ := viaT3 _ _ hm; cases he
-      | recvHave j => simp only [Handled] at hH; obtain ⟨_, hm, _⟩ := hH; obtain ⟨_, _, _, he, _⟩ := viaT3 _ _ hm; cases he
+      | recvHave j => simp only [Handled] at hH; obtain ⟨_, _, hm, _⟩ := hH; obtain ⟨_, _, _, he, _⟩ := viaT3 _ _ hm; cases he
       | recvBitfield bs => simp only [Handled] at hH; obtain ⟨_, _, _, hm, _⟩ := hH; obtain ⟨_, _, _, he, _⟩ := viaT3 _ _ hm; cases he
       | pieceCancel => simp only [Handled] at hH; obtain ⟨_, _, hm, _⟩ := hH; obtain ⟨_, _, _, he, _⟩ := viaT3 _ _ hm; cases he
       | pieceDone =>
